@@ -157,9 +157,21 @@ fn viol(symptom: &'static str, detail: String) -> Viol {
     Viol { symptom, detail }
 }
 
+/// what an op did to the state
+#[derive(Clone, Copy, PartialEq, Eq, Debug)]
+enum Step {
+    /// a new identifier was handed out
+    Fresh,
+    /// known term, same identifier, nothing changed physically
+    Same,
+    /// known term, same identifier, but the physical state moved (e.g. a counter): the statement
+    /// allows that, so it is explored as a further state instead of being reported
+    Moved,
+}
+
 /// Apply one op to the real objects, compare what comes back with the hand-out history, then read
-/// the whole observation table. Ok(true) = the op handed out a new identifier.
-fn dstep(st: &mut DState, op: DOp) -> Result<bool, Viol> {
+/// the whole observation table.
+fn dstep(st: &mut DState, op: DOp) -> Result<Step, Viol> {
     let known = match op {
         DOp::Enc(i) => st.plain.iter().any(|p| p.0 == TERMS[i as usize]),
         DOp::QEnc(i, j, k) => match (st.seen.get(i as usize), st.seen.get(j as usize), st.seen.get(k as usize)) {
@@ -167,9 +179,9 @@ fn dstep(st: &mut DState, op: DOp) -> Result<bool, Viol> {
             _ => false,
         },
     };
-    // the complete physical state is only needed to show that re-encoding changes nothing
+    // the complete physical state is only needed to tell a self-loop from a move
     let before = if known { st.fingerprint() } else { Vec::new() };
-    let fresh;
+    let fresh: Step;
     match op {
         DOp::Enc(i) => {
             let t = TERMS[i as usize];
@@ -179,10 +191,7 @@ fn dstep(st: &mut DState, op: DOp) -> Result<bool, Viol> {
                     if *id != got {
                         return Err(viol("term_encodes_to_a_different_id", format!("encode({:?}) returned {} but returned {} earlier", t, got, id)));
                     }
-                    if st.fingerprint() != before {
-                        return Err(viol("reencoding_changed_the_state", format!("encode({:?}) of a known term changed the dictionary / quoted store", t)));
-                    }
-                    fresh = false;
+                    fresh = if st.fingerprint() != before { Step::Moved } else { Step::Same };
                 }
                 None => {
                     if got & QBIT != 0 {
@@ -193,7 +202,7 @@ fn dstep(st: &mut DState, op: DOp) -> Result<bool, Viol> {
                     }
                     st.plain.push((t.to_string(), got));
                     st.seen.push((got, 0));
-                    fresh = true;
+                    fresh = Step::Fresh;
                 }
             }
         }
@@ -211,10 +220,7 @@ fn dstep(st: &mut DState, op: DOp) -> Result<bool, Viol> {
                     if *id != got {
                         return Err(viol("term_encodes_to_a_different_id", format!("quoted encode{:?} returned {:#x} but returned {:#x} earlier", comps, got, id)));
                     }
-                    if st.fingerprint() != before {
-                        return Err(viol("reencoding_changed_the_state", format!("quoted encode{:?} of a known triple changed the dictionary / quoted store", comps)));
-                    }
-                    fresh = false;
+                    fresh = if st.fingerprint() != before { Step::Moved } else { Step::Same };
                 }
                 None => {
                     if let Some((other, _)) = st.quoted.iter().find(|q| q.1 == got) {
@@ -227,7 +233,7 @@ fn dstep(st: &mut DState, op: DOp) -> Result<bool, Viol> {
                     st.quoted.push((comps, got));
                     st.quoted_text.push(text);
                     st.seen.push((got, level));
-                    fresh = true;
+                    fresh = Step::Fresh;
                 }
             }
         }
@@ -336,7 +342,16 @@ fn part1(ctx: &Ctx, out: &mut ShardOut) {
             out.fail(json!({"part": "dictionary", "ops": []}), v.symptom, v.detail, vec!["part=dictionary".into()]);
         }
     }
+    if lead {
+        // informational, not a verdict: the derived `Default` of QuotedTripleStore (unused in the repository)
+        // starts its counter at 0, so its first identifier lacks the high bit. Recorded so that the fact is
+        // measured rather than remembered; the search itself uses QuotedTripleStore::new().
+        let first = guarded(|| QuotedTripleStore::default().encode(1, 2, 3)).unwrap_or(u32::MAX);
+        out.count("info_first_id_of_default_constructed_quoted_store", first as u64);
+        out.count("info_default_constructed_quoted_store_id_in_quoted_range", (first & QBIT != 0) as u64);
+    }
     let mut frontier: Vec<Vec<DOp>> = vec![vec![]];
+    let mut moved_seen = false;
     for level in 1..=depth {
         let last = level == depth;
         let level_key = format!("dict_states_at_depth_{}", level);
@@ -377,21 +392,32 @@ fn part1(ctx: &Ctx, out: &mut ShardOut) {
                             }
                         }
                     }
-                    Ok(fresh) => {
-                        if !fresh {
+                    Ok(Step::Same) => {
+                        if counted {
+                            out.count("dict_reencode_self_loops", 1);
+                        }
+                    }
+                    Ok(step) => {
+                        let is_new = if step == Step::Moved {
+                            // never seen on the unchanged tree; keeps the search complete if re-encoding
+                            // starts to touch the physical state (counts of the last level may then
+                            // contain duplicates across shards)
+                            moved_seen = true;
                             if counted {
-                                out.count("dict_reencode_self_loops", 1);
+                                out.count("dict_reencode_moved_the_physical_state", 1);
                             }
-                            continue;
-                        }
-                        let canon = canonical_transition(&parent, op);
-                        if canon {
-                            canonical_new += 1;
-                        }
-                        let is_new = if last { canon } else { seen.insert(st.fingerprint()) };
-                        if !last && is_new {
-                            dedup_new += 1;
-                        }
+                            seen.insert(st.fingerprint())
+                        } else {
+                            let canon = canonical_transition(&parent, op);
+                            if canon {
+                                canonical_new += 1;
+                            }
+                            let fresh_new = if last && !moved_seen { canon } else { seen.insert(st.fingerprint()) };
+                            if !last && fresh_new {
+                                dedup_new += 1;
+                            }
+                            fresh_new
+                        };
                         if !is_new {
                             if counted {
                                 out.count("dict_dedup_hits", 1);
@@ -426,7 +452,7 @@ fn part1(ctx: &Ctx, out: &mut ShardOut) {
             }
         }
         // cross-check of the counting rule used for the last level against real de-duplication
-        if !last && canonical_new != dedup_new {
+        if !last && !moved_seen && canonical_new != dedup_new {
             out.machinery_errors.push(format!("dictionary search: canonical-parent count {} != de-duplicated count {} at depth {}", canonical_new, dedup_new, level));
         }
         frontier = next;
